@@ -5,6 +5,7 @@ go 1.23
 require github.com/tonkeeper/tongo v0.0.0
 
 require (
+	github.com/alecthomas/participle/v2 v2.0.0-beta.5 // indirect
 	golang.org/x/mod v0.22.0 // indirect
 	golang.org/x/sync v0.10.0 // indirect
 )
